@@ -1,0 +1,53 @@
+//! Helpers for embedding arbitrary text in generated JavaScript string literals.
+
+/// Escapes `text` so that it can be written between single quotes in generated JavaScript
+/// and evaluates to `text` again.
+pub(crate) fn escape_for_single_quoted_js_string(text: &str) -> String {
+    let mut escaped = String::with_capacity(text.len());
+    for character in text.chars() {
+        match character {
+            '\\' => escaped.push_str("\\\\"),
+            '\'' => escaped.push_str("\\'"),
+            '\n' => escaped.push_str("\\n"),
+            '\r' => escaped.push_str("\\r"),
+            '\u{2028}' => escaped.push_str("\\u2028"),
+            '\u{2029}' => escaped.push_str("\\u2029"),
+            other => escaped.push(other),
+        }
+    }
+    escaped
+}
+
+/// Like [`escape_for_single_quoted_js_string`], for pretty-printed query text. Pretty-printed
+/// query text separates lines with a backslash followed by a line feed, which is a line
+/// continuation in a JavaScript string literal and must be kept as is. (Query text never
+/// contains any other line feed, because string values cannot contain raw line terminators.)
+pub(crate) fn escape_query_text_for_single_quoted_js_string(query_text: &str) -> String {
+    query_text
+        .split("\\\n")
+        .map(escape_for_single_quoted_js_string)
+        .collect::<Vec<_>>()
+        .join("\\\n")
+}
+
+#[cfg(test)]
+mod tests {
+    use super::*;
+
+    #[test]
+    fn escapes_quotes_and_backslashes() {
+        assert_eq!(
+            escape_for_single_quoted_js_string(r#"a'b\"c"#),
+            r#"a\'b\\"c"#
+        );
+        assert_eq!(escape_for_single_quoted_js_string("a\nb"), "a\\nb");
+    }
+
+    #[test]
+    fn keeps_line_continuations_of_query_text() {
+        assert_eq!(
+            escape_query_text_for_single_quoted_js_string("query Q {\\\n  f(a: \"it's \\\" \\\\\"),\\\n}"),
+            "query Q {\\\n  f(a: \"it\\'s \\\\\" \\\\\\\\\"),\\\n}"
+        );
+    }
+}
